@@ -13,7 +13,7 @@ CONSTANTS
   EstN = 4
   Family = "assign"
   EmitAt = 0
-  MaxOps = 10
+  MaxOps = 12
   GateMsgs = 2
   GenStage = {"noneed", "need", "elected"}
   GenProc = {"none", "pad"}
